@@ -13,7 +13,7 @@ PER_INST = "results are per instantiation of the monomorphised functions, N in {
 PROPS = {
     "C07": {
         "level": "proof",
-        "units": ["ps", "keys", "pedersen"],
+        "units": ["ps", "keys", "pedersen", "cor_ps", "lemmas_ps", "lemmas_algebra"],
         "assumptions": [
             PER_INST,
             "key well-formedness (ps_key_ok) is established by KeyPair::new (C19) or by decode-time validation (C15)",
@@ -24,14 +24,14 @@ PROPS = {
     },
     "C08": {
         "level": "proof",
-        "units": ["sproof", "ps", "keys"],
+        "units": ["sproof", "ps", "keys", "cor_ps", "cor_sproof", "lemmas_ps", "lemmas_schnorr"],
         "scans": ["verified_blinded_message_sites"],
         "assumptions": [PER_INST, "PS unforgeability and discrete-log binding are cryptographic hypotheses, not decided here"],
         "trusted_base": CRYPTO_AXIOMS,
     },
     "C09": {
         "level": "proof",
-        "units": ["pedersen", "keys"],
+        "units": ["pedersen", "keys", "cor_pedersen", "lemmas_pedersen", "lemmas_algebra"],
         "assumptions": [
             "perturbation clauses hold for parameters without identity generators (invariant of generated/decoded PedersenParameters; from_generators accepts any input)",
             PER_INST,
@@ -40,7 +40,7 @@ PROPS = {
     },
     "C10": {
         "level": "proof",
-        "units": ["cproof", "sproof", "range", "transcripts"],
+        "units": ["cproof", "sproof", "range", "transcripts", "cor_cproof", "cor_sproof", "lemmas_schnorr", "lemmas_range_ledger", "lemmas_pedersen", "lemmas_ps"],
         "assumptions": [
             PER_INST,
             "CommitmentProofBuilder::generate_proof_commitments, RangeConstraintBuilder::generate_constraint_commitments/_response are contract-only in Verus (closures capture &mut rng / ArrayVec::into_iter); their contracts are assumptions of the completeness lemmas and are checked by Kani in bounded form",
@@ -49,13 +49,13 @@ PROPS = {
     },
     "C11": {
         "level": "proof",
-        "units": ["cproof", "sproof"],
+        "units": ["cproof", "sproof", "cor_cproof", "cor_sproof", "lemmas_schnorr", "lemmas_pedersen", "lemmas_ps"],
         "assumptions": [PER_INST, "challenge != 0 for the commitment-perturbation clause"],
         "trusted_base": CRYPTO_AXIOMS,
     },
     "C12": {
         "level": "proof",
-        "units": ["challenge", "transcripts", "za_merchant"],
+        "units": ["challenge", "transcripts", "za_merchant", "cor_merchant"],
         "assumptions": [
             PER_INST,
             "SHA3-256 collision resistance (to go from 'transcript changes' to 'challenge changes'); fixed-width encodings to_bytes of scalars and points are injective (documented contract of bls12_381)",
@@ -65,7 +65,7 @@ PROPS = {
     },
     "C13": {
         "level": "proof",
-        "units": ["range", "sproof"],
+        "units": ["range", "sproof", "lemmas_range_ledger"],
         "assumptions": [
             PER_INST,
             "PS unforgeability for digits outside 0..127 (the signing key of the digit signatures is discarded)",
@@ -75,7 +75,7 @@ PROPS = {
     },
     "C19": {
         "level": "proof",
-        "units": ["keys", "sampling"],
+        "units": ["keys", "sampling", "lemmas_ps"],
         "assumptions": [
             PER_INST,
             "termination of rejection-sampling loops is not proved (an all-zero RNG never terminates)",
@@ -85,7 +85,7 @@ PROPS = {
     },
     "C01": {
         "level": "proof",
-        "units": ["za_merchant", "sproof", "cproof", "challenge", "transcripts"],
+        "units": ["za_merchant", "sproof", "cproof", "challenge", "transcripts", "cor_merchant", "lemmas_schnorr", "lemmas_ps"],
         "scans": ["verified_blinded_state_sites", "verified_blinded_close_state_sites", "verified_blinded_message_sites"],
         "assumptions": [
             "Fiat-Shamir in the random-oracle model and the forking step (from one accepting proof to two transcripts) are cryptographic, outside any program logic; discrete-log binding of the commitments",
@@ -95,7 +95,7 @@ PROPS = {
     },
     "C02": {
         "level": "proof",
-        "units": ["za_merchant", "sproof", "cproof", "range", "challenge", "transcripts"],
+        "units": ["za_merchant", "sproof", "cproof", "range", "challenge", "transcripts", "cor_merchant", "lemmas_schnorr"],
         "scans": ["verified_blinded_state_sites", "verified_blinded_close_state_sites", "verified_blinded_message_sites"],
         "assumptions": [
             "as C01, plus unforgeability of PS signatures (pay token, digit signatures)",
@@ -105,7 +105,7 @@ PROPS = {
     },
     "C03": {
         "level": "proof",
-        "units": ["za_customer", "za_states", "za_merchant"],
+        "units": ["za_customer", "za_states", "za_merchant", "cor_customer", "lemmas_ps"],
         "scans": ["revocation_pair_release_sites", "lock_message_sites", "no_unsafe"],
         "assumptions": [
             "the re-randomiser drawn in close() is non-zero (probability 2^-255 otherwise)",
@@ -116,7 +116,7 @@ PROPS = {
     },
     "C04": {
         "level": "proof",
-        "units": ["za_customer", "za_states", "za_lib"],
+        "units": ["za_customer", "za_states", "za_lib", "lemmas_range_ledger", "lemmas_schnorr"],
         "kani": ["balance_try_new_exact", "amount_constructors_exact", "balance_apply_exact", "balance_try_add_exact"],
         "assumptions": [
             "blind-signing randomiser u != 0 and re-randomiser r != 0",
@@ -127,7 +127,7 @@ PROPS = {
     "C05": {
         "level": "proof",
         "units": ["za_merchant", "za_nonce_revlock", "pedersen"],
-        "scans": ["revocation_pair_sites"],
+        "scans": ["revocation_pair_sites", "serde_routing", "no_unsafe"],
         "assumptions": [
             "RevocationPair::new is contract-only in Verus (u8 index += 1 would need 256 consecutive non-canonical digests to overflow: probability ~2^-256k)",
             "SHA3 preimage resistance is a cryptographic hypothesis",
@@ -136,7 +136,7 @@ PROPS = {
     },
     "C06": {
         "level": "proof",
-        "units": ["za_merchant", "za_states", "challenge", "transcripts"],
+        "units": ["za_merchant", "za_states", "challenge", "transcripts", "cor_merchant", "lemmas_ps", "lemmas_schnorr"],
         "assumptions": [
             "SHA3 collision resistance (transcript differs ==> challenge differs); challenge != 0; commitments of honest proofs are not the identity; cross-session blinding-factor coincidences are negligible",
             "the revocation-commitment parameters are not hashed into the pay challenge; replacing them changes the operand of the revocation-lock sub-proof equation (a linear coincidence otherwise)",
@@ -146,7 +146,7 @@ PROPS = {
     },
     "C14": {
         "level": "proof",
-        "units": ["ps", "sproof", "cproof", "za_customer", "za_states", "za_nonce_revlock"],
+        "units": ["ps", "sproof", "cproof", "za_customer", "za_states", "za_nonce_revlock", "lemmas_ps"],
         "assumptions": [
             "DECIDED: structural freshness only - every signature shown is randomize_r(blind_bf(sigma)) with r appended to the RNG draw log in the same call; closing signatures are re-randomized; nonces come from fresh draws; Ready::start reveals the old nonce only; lock releases the old pair only",
             "NOT DECIDABLE by any contract (assumed): that two values are DIFFERENT across messages (true only with overwhelming probability over the draws, false for a constant RNG), and zero-knowledge itself",
@@ -176,14 +176,14 @@ PROPS = {
     },
     "C17": {
         "level": "proof",
-        "units": ["za_lib", "za_states"],
+        "units": ["za_lib", "za_states", "lemmas_range_ledger"],
         "kani": ["balance_try_new_exact", "amount_constructors_exact", "balance_apply_exact", "balance_try_add_exact", "amount_to_scalar_total", "balance_to_scalar_total"],
         "assumptions": ["Scalar::from(u64) == iota(x) (assumed contract of bls12_381)"],
         "trusted_base": CRYPTO_AXIOMS,
     },
     "C18": {
         "level": "proof",
-        "units": ["za_nonce_revlock", "za_states"],
+        "units": ["za_nonce_revlock", "za_states", "cor_customer", "lemmas_ps"],
         "scans": ["nonce_sites"],
         "assumptions": ["SHA3 collision resistance for 'the channel id changes'; y_2 != 0 from key well-formedness (C19)", "ChannelId::new / to_scalar are contract-only (byte slicing)"],
         "trusted_base": CRYPTO_AXIOMS,
